@@ -168,7 +168,10 @@ class Gen:
             return self.leaf(h0)
         x = r.random()
         if x < 0.35 * self.p.get("bait", 1.0):
-            return self.instantiate(r.choice(BAIT), h0, depth)
+            t = self.instantiate(r.choice(BAIT), h0, depth)
+            # sometimes the inner term of a nested pattern also survives on the stack (the rule can rewrite the outer
+            # instruction but cannot drop the inner one)
+            return ("keepinner", t) if r.random() < 0.2 else t
         if x < 0.8:
             return ("op", r.choice(BIN), [self.tree(h0, depth - 1), self.tree(h0, depth - 1)])
         if x < 0.9:
@@ -252,6 +255,27 @@ class Gen:
             self.emit(t[1], None, 0, 1)
         elif k == "pseudo":
             self.emit(t[1], t[2], 0, 1)
+        elif k == "keepinner":
+            u = t[1]
+            nested = [i for i, a in enumerate(u[2]) if a[0] == "op"] if u[0] == "op" else []
+            if not nested or len(u[2]) > 2:
+                self.compile(u)
+            else:
+                p = nested[-1]
+                args = u[2]
+                if len(args) == 1:
+                    self.compile(args[0])
+                    self.emit("DUP1", None, 1, 2)
+                elif p == 1:
+                    self.compile(args[1])
+                    self.emit("DUP1", None, 1, 2)
+                    self.compile(args[0])
+                else:
+                    self.compile(args[0])
+                    self.emit("DUP1", None, 1, 2)
+                    self.compile(args[1])
+                    self.emit("SWAP1", None, 2, 2)
+                self.emit(u[1], None, len(args), 1)
         elif k == "twice":
             self.compile(t[2])
             self.emit("DUP1", None, 1, 2)
